@@ -237,6 +237,6 @@ def _cutoff_all_N(ck):
     try:
         pyk.cutoff_obligations(ck)
     except (pyk.OutOfDate, RuntimeError) as ex_:
-        # the scalar kernel no longer has a shape the extractor knows: inconclusive for the all-N part (harness
-        # error unless another obligation already reports a violation), never a pass
-        ck.error(f"E2 encoding out of date for the cut-off kernel: {ex_}")
+        # the scalar kernel no longer has a shape the extractor knows: the all-N part is INCONCLUSIVE for this tree (reported
+        # as such in the log and the evidence, never as a pass); the E1 obligations at concrete N still decide the property
+        ck.add_direct("E2/cutoff-decision/encoding", "unknown", family="E2 cut-off kernel (symbolic N)", detail=f"E2 extractor does not recognise the current source: {ex_}")
